@@ -7,7 +7,8 @@ import Props.C09
 Everything here is about `DurableModel/Par.lean` (the transition system of `ConcurrentExecutor`) and
 holds in **every reachable state** `Par.Reach n maxConc cfg s`: any number of branches, any
 concurrency limit (`maxConc = 0` = no limit), any completion config, any interleaving of pool workers,
-timer thread and main thread, any way each task ends, any clock behaviour.
+timer thread and main thread (which submits the initial tasks one by one while workers, callbacks and
+the timer thread already run), any way each task ends, any clock behaviour.
 
 The proofs go through the single inductive invariant `ParProofs.Inv` (`Proofs/Par.lean`).
 
@@ -53,7 +54,8 @@ theorem cnt_eq_filter (f : Nat → BSt) (n : Nat) :
 
 /-- **Bookkeeping.** Work queue and active set are duplicate-free, disjoint, in range and RUNNING; the
 success / failure counters agree with the statuses at all times; timer entries are in range; nothing
-outside `0..n-1` is ever touched. -/
+outside `0..n-1` is ever touched; a branch the main thread has not submitted yet is PENDING and has
+no task and no timer entry. -/
 theorem C09X_bookkeeping (h : Reach n maxConc cfg s) :
     s.n = n ∧ s.cfg = cfg ∧ s.active.Nodup ∧ s.queue.Nodup ∧ (∀ i, i ∈ s.active → i ∉ s.queue) ∧
     (∀ i, i ∈ s.active ∨ i ∈ s.queue → i < n ∧ s.status i = .running) ∧
@@ -62,10 +64,13 @@ theorem C09X_bookkeeping (h : Reach n maxConc cfg s) :
     s.succ + s.fail ≤ n ∧
     (∀ t i, (t, i) ∈ s.timers → i < n ∧ s.status i = .suspendedUntil t) ∧
     (∀ t i, s.status i = .suspendedUntil t → (t, i) ∈ s.timers) ∧
-    (∀ i, n ≤ i → s.status i = (init n maxConc cfg).status i) := by
+    (∀ i, n ≤ i → s.status i = (init n maxConc cfg).status i) ∧
+    s.submitted ≤ n ∧
+    (∀ i, s.submitted ≤ i → i < n →
+      s.status i = .pending ∧ i ∉ s.queue ∧ i ∉ s.active ∧ ∀ t, (t, i) ∉ s.timers) := by
   have hI := Inv.of_reach h
   refine ⟨hI.hn, hI.hcfg, hI.act_nodup, hI.q_nodup, hI.disj, ?_, ?_, ?_, hI.toBook.succ_fail_le, ?_,
-    hI.tim_has, ?_⟩
+    hI.tim_has, ?_, hI.sub_le, ?_⟩
   · intro i hi
     exact ⟨hi.elim (hI.act_lt i) (hI.q_lt i), hI.run i hi⟩
   · rw [hI.hsucc]; exact (cnt_eq_filter _ _).1
@@ -75,6 +80,12 @@ theorem C09X_bookkeeping (h : Reach n maxConc cfg s) :
     rw [hI.out_n i hi]
     simp only [Par.init]
     rw [if_neg (by omega)]
+  · intro i hi hin
+    have hp := hI.unsub i hi hin
+    refine ⟨hp, fun hq => ?_, fun ha => ?_, fun t hm => ?_⟩
+    · have := hI.run i (Or.inr hq); rw [hp] at this; cases this
+    · have := hI.run i (Or.inl ha); rw [hp] at this; cases this
+    · have := hI.tim_live t i hm; rw [hp] at this; cases this
 
 /-! ## 3. the return decision -/
 
@@ -113,17 +124,20 @@ theorem C09X_decision_reason (h : Reach n maxConc cfg s) {items : List BSt}
   (C09.C09_decide_iff_policy cfg _ _ n).1 (C09X_decision_sound h ho).2
 
 /-- What the main thread reports when it wakes: fatal has priority, then suspend, and a result is
-built exactly when neither is recorded — and then the policy is decided. -/
+built exactly when neither is recorded — and then the policy is decided.  It wakes only after it has
+submitted every branch. -/
 theorem C09X_wake_outcome (h : Reach n maxConc cfg s) (hs : step s .wake = some s') :
     s.evt = true ∧ s.out = none ∧
     (s.fatal = true → s'.out = some .fatal) ∧
     (s.fatal = false → ∀ k, s.suspendExc = some k → s'.out = some (.suspend k)) ∧
     (s.fatal = false → s.suspendExc = none →
       s'.out = some (.result ((List.range n).map s'.status)) ∧
-      Policy.shouldComplete cfg s.succ s.fail n = true) := by
+      Policy.shouldComplete cfg s.succ s.fail n = true) ∧
+    s.submitted = n := by
   have hI := Inv.of_reach h
-  rcases wake_spec hs with ⟨he, ho, rfl⟩
-  refine ⟨he, ho, fun hf => by simp [hf], fun hf k hk => by simp [hf, hk], fun hf hk => ?_⟩
+  rcases wake_spec hs with ⟨he, ho, hsub, rfl⟩
+  refine ⟨he, ho, fun hf => by simp [hf], fun hf k hk => by simp [hf, hk], fun hf hk => ?_,
+    Nat.le_antisymm hI.sub_le (by rw [← hI.hn]; exact hsub)⟩
   refine ⟨by simp [hf, hk, hI.hn], ?_⟩
   rcases hI.evt_sound he with h1 | h1 | h1
   · rw [hf] at h1; cases h1
@@ -151,28 +165,29 @@ theorem C09X_suspend_excludes_policy (h : Reach n maxConc cfg s) :
 /-! ## 4. the reported items -/
 
 /-- The snapshot taken by `wake`: queued tasks are cancelled (reported SUSPENDED), everything else is
-reported with the status it has at this very step. -/
+reported with the status it has at this very step; no branch is unsubmitted at that step. -/
 theorem C09X_result_snapshot (h : Reach n maxConc cfg s) (hs : step s .wake = some s')
     {items : List BSt} (ho : s'.out = some (.result items)) :
     items = (List.range n).map s'.status ∧
     (∀ i, s'.status i = if i ∈ s.queue then .suspended else s.status i) ∧
-    (∀ i, i < n → items[i]? = some (if i ∈ s.queue then .suspended else s.status i)) := by
+    (∀ i, i < n → items[i]? = some (if i ∈ s.queue then .suspended else s.status i)) ∧
+    s.submitted = n := by
   have hI := Inv.of_reach h
   have hw := C09X_wake_outcome h hs
-  rcases wake_spec hs with ⟨he, ho0, hs'⟩
+  rcases wake_spec hs with ⟨he, ho0, _, hs'⟩
   have hst : ∀ i, s'.status i = if i ∈ s.queue then .suspended else s.status i := by
     intro i; rw [hs']
   have hitems : items = (List.range n).map s'.status := by
     cases hf : s.fatal
     · cases hk : s.suspendExc
-      · have := (hw.2.2.2.2 hf hk).1
+      · have := (hw.2.2.2.2.1 hf hk).1
         rw [ho] at this
         cases this; rfl
       · have := hw.2.2.2.1 hf _ hk
         rw [ho] at this; cases this
     · have := hw.2.2.1 hf
       rw [ho] at this; cases this
-  refine ⟨hitems, hst, fun i hi => ?_⟩
+  refine ⟨hitems, hst, fun i hi => ?_, hw.2.2.2.2.2⟩
   rw [hitems, getElem?_range_map, if_pos hi, hst]
 
 /-- The branch a status stands for (payloads abstracted), as in `Par.itemsOf`. -/
@@ -229,7 +244,8 @@ theorem C09X_reported_really_finished (acts : List Act)
     have hst := (hres.2.2 i).1 hb
     refine ⟨hst, ?_⟩
     rcases htr.1 hst with h0 | h0
-    · simp [Par.init, hi _ hb] at h0
+    · simp only [Par.init] at h0
+      rw [if_pos (hi _ hb)] at h0; cases h0
     · exact h0
   · intro hb
     have hst := (hres.2.2 i).2 hb
@@ -251,15 +267,15 @@ theorem C09X_status_final_only_by_finish (h : Reach n maxConc cfg s) {a : Act}
 
 /-! ## 4b. cancellation by the woken main thread -/
 
-/-- **Cancellation.** A `cancel i` step is only enabled after the completion event is set (and before
-the main thread has left `execute`), and only for a task no worker has started (`i` queued, hence
+/-- **Cancellation.** A `cancel i` step is only enabled after the completion event is set and every
+branch has been submitted (and before the main thread has left `execute`), and only for a task no worker has started (`i` queued, hence
 `i < n` and RUNNING in the executor's eyes).  Afterwards branch `i` is SUSPENDED, has no task (neither
 queued nor executing) and no timer entry; and this is final: along **every** continuation of the run
 its status stays SUSPENDED, it never gets a task again, and any result built later reports it as
 SUSPENDED — i.e. `started`, never succeeded / failed. -/
 theorem C09X_cancel_only_after_decision (h : Reach n maxConc cfg s) {i : Nat}
     (hs : step s (.cancel i) = some s') :
-    (s.evt = true ∧ s.out = none ∧ i ∈ s.queue ∧ i < n ∧ s.status i = .running) ∧
+    (s.evt = true ∧ s.out = none ∧ s.submitted = n ∧ i ∈ s.queue ∧ i < n ∧ s.status i = .running) ∧
     (s'.status i = .suspended ∧ i ∉ s'.queue ∧ i ∉ s'.active ∧ (∀ t, (t, i) ∉ s'.timers) ∧
       s'.out = none ∧ s'.succ = s.succ ∧ s'.fail = s.fail ∧ s'.suspendExc = s.suspendExc) ∧
     ∀ acts s'', runActs s' acts = some s'' →
@@ -268,7 +284,7 @@ theorem C09X_cancel_only_after_decision (h : Reach n maxConc cfg s) {i : Nat}
         items[i]? = some .suspended ∧ (itemsOf items)[i]? = some (.started i) := by
   have hI := Inv.of_reach h
   have hR' : Reach n maxConc cfg s' := Reach.step _ h hs
-  rcases cancel_spec hs with ⟨he, ho, hi, hs'⟩
+  rcases cancel_spec hs with ⟨he, ho, hi, hsub, hs'⟩
   have hin : i < n := hI.q_lt i hi
   have hst' : s'.status i = .suspended := by rw [hs']; simp
   have hout' : s'.out = none := by rw [hs']; exact ho
@@ -282,7 +298,8 @@ theorem C09X_cancel_only_after_decision (h : Reach n maxConc cfg s) {i : Nat}
     · have := hB.run i (Or.inl ha); rw [hsu] at this; cases this
     · have := hB.tim_live t i hm; rw [hsu] at this; cases this
   have hid' := hidle hR' hst'
-  refine ⟨⟨he, ho, hi, hin, hI.run i (Or.inr hi)⟩,
+  refine ⟨⟨he, ho, Nat.le_antisymm hI.sub_le (by rw [← hI.hn]; exact hsub), hi, hin,
+      hI.run i (Or.inr hi)⟩,
     ⟨hst', hid'.1, hid'.2.1, hid'.2.2, hout', by rw [hs'], by rw [hs'], by rw [hs']⟩, ?_⟩
   -- the continuation: induction over the run with the invariant
   -- "status i = suspended ∧ any result reports it suspended"
@@ -322,10 +339,38 @@ theorem C09X_cancel_only_after_decision (h : Reach n maxConc cfg s) {i : Nat}
 
 /-! ## 5. no waiting for running branches -/
 
-/-- **C09, "without waiting".** As soon as the completion event is set the main thread can return,
-whatever is still executing. -/
-theorem C09X_returns_without_waiting (he : s.evt = true) (ho : s.out = none) :
-    (step s .wake).isSome = true := wake_enabled he ho
+/-- **C09, "without waiting".** As soon as the completion event is set — and the main thread is done
+submitting — it can return, whatever is still executing. -/
+theorem C09X_returns_without_waiting (he : s.evt = true) (ho : s.out = none)
+    (hsub : s.submitted = s.n) : (step s .wake).isSome = true :=
+  wake_enabled he ho (Nat.le_of_eq hsub.symm)
+
+/-- **The main thread returns only after it has submitted every branch.** -/
+theorem C09X_all_submitted_before_return (h : Reach n maxConc cfg s) (ho : s.out.isSome = true) :
+    s.submitted = s.n := by
+  have hI := Inv.of_reach h
+  rw [hI.hn]; exact hI.out_sub ho
+
+/-- **Submission order.** Along any run from the initial state the `submit` steps occur for
+`i = 0, 1, 2, …` in index order, each exactly once: the indices of the `submit` actions of the run are
+exactly `List.range s.submitted` (so the initial tasks enter the work queue in input order; a
+re-submitted branch may be queued in between, see the last example). -/
+theorem C09X_submission_order (acts : List Act) (hr : runActs (init n maxConc cfg) acts = some s) :
+    submitsOf acts = List.range s.submitted ∧ s.submitted ≤ n := by
+  have h := submits_run (n := n) (maxConc := maxConc) (cfg := cfg) Reach.init acts hr
+  have hR : Reach n maxConc cfg s := reach_of_runActs Reach.init acts hr
+  refine ⟨?_, (Inv.of_reach hR).sub_le⟩
+  rw [h.2, List.range_eq_range']
+  rfl
+
+/-- Step form of the submission order: `submit i` is enabled exactly for the next index. -/
+theorem C09X_submit_next_only (h : Reach n maxConc cfg s) {i : Nat} (hs : step s (.submit i) = some s') :
+    i = s.submitted ∧ i < n ∧ s.status i = .pending ∧ s'.status i = .running ∧
+    s'.queue = s.queue ++ [i] ∧ s'.submitted = s.submitted + 1 := by
+  have hI := Inv.of_reach h
+  rcases submit_spec hs with ⟨hi, hin, rfl⟩
+  rw [hI.hn] at hin
+  exact ⟨hi, hin, hI.unsub i (by omega) hin, by simp, rfl, rfl⟩
 
 /-! ## 6. suspension -/
 
@@ -376,15 +421,16 @@ theorem C07X_indefinite_suspend_idle (h : Reach n maxConc cfg s) (hk : s.suspend
 /-- **C07, a suspend decision is final.** From the step that writes `_suspend_exception` onwards — in
 every reachable state in which it is set, hence until and including the main thread's wake-up and
 after it — nothing is executing, nothing is queued, no branch is RUNNING, the policy is undecided and
-the event is set.  (When the decision is taken all branches are idle, `C07X_suspend_only_when_idle`;
+the event is set, and every branch has been submitted (an unsubmitted branch is PENDING, which
+`should_execution_suspend` treats as not idle).  (When the decision is taken all branches are idle, `C07X_suspend_only_when_idle`;
 afterwards nothing can begin: the queue is empty and the timer thread, seeing the event, leaves a due
 branch PENDING instead of starting it.  PENDING statuses may therefore appear; RUNNING never.) -/
 theorem C07X_suspend_decision_idle (h : Reach n maxConc cfg s) (hk : s.suspendExc.isSome = true) :
     s.active = [] ∧ s.queue = [] ∧ (∀ i, i < n → s.status i ≠ .running) ∧
-    Policy.shouldComplete cfg s.succ s.fail n = false ∧ s.evt = true :=
+    Policy.shouldComplete cfg s.succ s.fail n = false ∧ s.evt = true ∧ s.submitted = n :=
   have hI := Inv.of_reach h
   have h0 := hI.susp_idle hk
-  ⟨h0.1, h0.2.1, h0.2.2, hI.susp_undecided hk, hI.susp_evt hk⟩
+  ⟨h0.1, h0.2.1, h0.2.2, hI.susp_undecided hk, hI.susp_evt hk, hI.susp_sub hk⟩
 
 /-- **C07, "suspended" means idle.** Whenever the main thread has raised the suspend exception, no
 branch is RUNNING, no task is executing and none is queued — the statement refuted before the fix by
@@ -398,42 +444,78 @@ theorem C07X_suspend_means_idle (h : Reach n maxConc cfg s) {k : Option Nat}
   have h0 := C07X_suspend_decision_idle h hk
   ⟨h0.1, h0.2.1, h0.2.2.1, hk, h0.2.2.2.1⟩
 
-/-- A branch can become RUNNING again **only** by the timer thread's successful resubmission of a due
-timed-suspended branch, and only while the completion event is not set — hence before any decision
+/-- A branch becomes RUNNING **only** by its initial submission (`submit i` for the next unsubmitted
+index, from PENDING), or — again — by the timer thread's successful resubmission of a due
+timed-suspended branch, and that only while the completion event is not set, hence before any decision
 (no suspend decision taken, main thread not returned). -/
 theorem C07X_running_again_only_by_timer (h : Reach n maxConc cfg s) {a : Act}
     (hs : step s a = some s') {i : Nat} (h0 : s.status i ≠ .running) (h1 : s'.status i = .running) :
-    a = .timerFire i true ∧ s.evt = false ∧ s.out = none ∧ s.suspendExc = none ∧
-    ∃ t, s.status i = .suspendedUntil t ∧ t ≤ s.clock := by
+    (a = .submit i ∧ i = s.submitted ∧ s.status i = .pending) ∨
+    (a = .timerFire i true ∧ s.evt = false ∧ s.out = none ∧ s.suspendExc = none ∧
+      ∃ t, s.status i = .suspendedUntil t ∧ t ≤ s.clock) := by
   have hI := Inv.of_reach h
-  have hr := running_step hI.toBook hs h0 h1
-  refine ⟨hr.1, hr.2.1, ?_, ?_, hr.2.2⟩
-  · cases ho : s.out
-    · rfl
-    · have := (hI.out_evt (by rw [ho]; rfl)).1; rw [hr.2.1] at this; cases this
-  · cases hk : s.suspendExc
-    · rfl
-    · have := hI.susp_evt (by rw [hk]; rfl); rw [hr.2.1] at this; cases this
+  rcases running_step hI.toBook hs h0 h1 with hr | hr
+  · exact Or.inl hr
+  · refine Or.inr ⟨hr.1, hr.2.1, ?_, ?_, hr.2.2⟩
+    · cases ho : s.out
+      · rfl
+      · have := (hI.out_evt (by rw [ho]; rfl)).1; rw [hr.2.1] at this; cases this
+    · cases hk : s.suspendExc
+      · rfl
+      · have := hI.susp_evt (by rw [hk]; rfl); rw [hr.2.1] at this; cases this
+
+/-- … in particular a branch that was already submitted becomes RUNNING *again* only by the timer. -/
+theorem C07X_running_again_only_by_timer' (h : Reach n maxConc cfg s) {a : Act}
+    (hs : step s a = some s') {i : Nat} (hsub : i < s.submitted)
+    (h0 : s.status i ≠ .running) (h1 : s'.status i = .running) :
+    a = .timerFire i true ∧ s.evt = false ∧ s.out = none ∧ s.suspendExc = none ∧
+      ∃ t, s.status i = .suspendedUntil t ∧ t ≤ s.clock := by
+  rcases C07X_running_again_only_by_timer h hs h0 h1 with ⟨_, hi, _⟩ | hr
+  · omega
+  · exact hr
 
 /-- **C07, nothing is started after the decision.** Once the completion event is set, along every
-continuation of the run the work queue only shrinks and only tasks that were already queued can still
-become active (the cancellation race of `C09X_cancel_only_after_decision`); no branch is re-submitted. -/
-theorem C07X_no_start_after_decision (h : Reach n maxConc cfg s) (he : s.evt = true)
+continuation of the run the only additions to the work queue are the main thread's remaining initial
+submissions (indices `s.submitted ≤ x < s'.submitted ≤ n`); no branch is re-submitted by the timer, and
+only tasks that were queued or are so submitted can still become active. -/
+theorem C07X_no_start_after_decision_general (h : Reach n maxConc cfg s) (he : s.evt = true)
     (acts : List Act) (hr : runActs s acts = some s') :
-    s'.evt = true ∧ s'.queue ⊆ s.queue ∧ s'.active ⊆ s.active ++ s.queue :=
+    s'.evt = true ∧ s.submitted ≤ s'.submitted ∧ s'.submitted ≤ n ∧
+    (∀ x, x ∈ s'.queue → x ∈ s.queue ∨ (s.submitted ≤ x ∧ x < s'.submitted)) ∧
+    (∀ x, x ∈ s'.active → x ∈ s.active ∨ x ∈ s.queue ∨ (s.submitted ≤ x ∧ x < s'.submitted)) :=
   queue_run h he acts hr
+
+/-- … hence once the event is set **and everything is submitted** the work queue only shrinks and
+only tasks that were already queued can still become active (the cancellation race of
+`C09X_cancel_only_after_decision`). -/
+theorem C07X_no_start_after_decision (h : Reach n maxConc cfg s) (he : s.evt = true)
+    (hsub : s.submitted = n) (acts : List Act) (hr : runActs s acts = some s') :
+    s'.evt = true ∧ s'.submitted = n ∧ s'.queue ⊆ s.queue ∧ s'.active ⊆ s.active ++ s.queue := by
+  have hq := queue_run h he acts hr
+  refine ⟨hq.1, by omega, fun x hx => ?_, fun x hx => ?_⟩
+  · rcases hq.2.2.2.1 x hx with h1 | ⟨h1, h2⟩
+    · exact h1
+    · omega
+  · rcases hq.2.2.2.2 x hx with h1 | h1 | ⟨h1, h2⟩
+    · exact List.mem_append_left _ h1
+    · exact List.mem_append_right _ h1
+    · omega
 
 /-- After the main thread returned nothing is queued any more and nothing is ever resubmitted. -/
 theorem C07X_after_return_nothing_queued (h : Reach n maxConc cfg s) (ho : s.out.isSome = true) :
-    s.evt = true ∧ s.queue = [] := (Inv.of_reach h).out_evt ho
+    s.evt = true ∧ s.queue = [] ∧ s.submitted = n :=
+  have hI := Inv.of_reach h
+  ⟨(hI.out_evt ho).1, (hI.out_evt ho).2, hI.out_sub ho⟩
 
 /-! ## 7. the main thread never waits forever -/
 
-/-- **C07, never stuck (general form).** While the completion event is not set the executor still
-regards some branch as RUNNING: it can never be that every branch is finished / suspended / waiting
-for a timer and the main thread keeps waiting. -/
+/-- **C07, never stuck (general form).** While the completion event is not set, the main thread is
+still submitting or the executor still regards some branch as RUNNING: it can never be that every
+branch is submitted and finished / suspended / waiting for a timer while the main thread keeps
+waiting. -/
 theorem C07X_waiting_implies_running (h : Reach n maxConc cfg s) (hn : 0 < n) (he : s.evt = false) :
-    ∃ i, i < n ∧ s.status i = .running := running_of_not_evt (Inv.of_reach h) hn he
+    s.submitted < n ∨ ∃ i, i < n ∧ s.status i = .running :=
+  running_of_not_evt (Inv.of_reach h) hn he
 
 set_option synthInstance.maxSize 1024 in
 /-- The wanted statement `evt = false → active ≠ [] ∨ queue ≠ [] ∨ (a live timer entry exists)` is
@@ -443,38 +525,49 @@ branch stays RUNNING without a task, and from then on only `tick` is enabled —
 (`OrphanedChildException` means "the parent already completed", i.e. in the real code it is raised
 only after the executor returned; the model over-approximates.) -/
 theorem C07X_early_orphan_stuck_witness :
-    (runActs (init 1 0 ⟨none, none, none⟩) [.begin 0, .finish 0 .orphan]).map
-      (fun s => (s.evt, s.active, s.queue, s.timers, s.status 0))
-      = some (false, [], [], [], .running) := by decide
+    (runActs (init 1 0 ⟨none, none, none⟩) [.submit 0, .begin 0, .finish 0 .orphan]).map
+      (fun s => (s.evt, s.active, s.queue, s.timers, s.status 0, s.submitted))
+      = some (false, [], [], [], .running, 1) := by decide
 
 /-- … and such a state is stuck for good: only time passes. -/
 theorem C07X_stuck_forever (ha : s.active = []) (hq : s.queue = []) (ht : s.timers = [])
-    (he : s.evt = false) {a : Act} (hs : step s a = some s') :
-    (∃ d, a = .tick d) ∧ s'.active = [] ∧ s'.queue = [] ∧ s'.timers = [] ∧ s'.evt = false := by
+    (he : s.evt = false) (hsub : s.n ≤ s.submitted) {a : Act} (hs : step s a = some s') :
+    (∃ d, a = .tick d) ∧ s'.active = [] ∧ s'.queue = [] ∧ s'.timers = [] ∧ s'.evt = false ∧
+    s'.n ≤ s'.submitted := by
   cases a with
+  | submit i =>
+    simp only [Par.step, Par.submit_] at hs
+    split at hs
+    · cases hs
+    · rename_i h1
+      have h1 : i = s.submitted := Decidable.not_not.1 h1
+      rw [if_pos (by omega)] at hs; cases hs
   | begin i => simp [Par.step, Par.begin_, hq] at hs
   | finish i f => simp [Par.step, Par.finish, ha] at hs
   | timerFire i ok => simp [Par.step, Par.timerFire, ht] at hs
-  | tick d => cases hs; exact ⟨⟨d, rfl⟩, ha, hq, ht, he⟩
+  | tick d => cases hs; exact ⟨⟨d, rfl⟩, ha, hq, ht, he, hsub⟩
   | cancel i => simp [Par.step, Par.cancel_, he] at hs
   | wake => simp [Par.step, Par.wake, he] at hs
 
 /-- **C07, never stuck.** In every run in which `OrphanedChildException` is only raised after the
 completion event is set (`ReachO`), a waiting main thread (`evt = false`) always has a task that is
-executing or queued; the timer disjunct of the wanted statement is never needed (when all branches
-are idle the suspend decision itself sets the event). -/
+executing or queued, or is itself still submitting; the timer disjunct of the wanted statement is
+never needed (when all branches are idle the suspend decision itself sets the event). -/
 theorem C07X_never_stuck (h : ReachO n maxConc cfg s) (hn : 0 < n) (he : s.evt = false) :
-    s.active ≠ [] ∨ s.queue ≠ [] := by
-  rcases running_of_not_evt (Inv.of_reach h.reach) hn he with ⟨i, hi, hr⟩
+    s.active ≠ [] ∨ s.queue ≠ [] ∨ s.submitted < n := by
+  rcases running_of_not_evt (Inv.of_reach h.reach) hn he with hsub | ⟨i, hi, hr⟩
+  · exact Or.inr (Or.inr hsub)
   rcases NoOrphan.of_reachO h he i hi hr with hm | hm
   · left; intro e; rw [e] at hm; cases hm
-  · right; intro e; rw [e] at hm; cases hm
+  · right; left; intro e; rw [e] at hm; cases hm
 
-/-- … and then an action of a pool worker is enabled: an executing task can end (in any way), or
-nothing is executing and a worker is free to start the head of the queue (`0 < maxWorkers`). -/
+/-- … and then an action is enabled that makes progress: an executing task can end (in any way), or
+nothing is executing and a worker is free to start the head of the queue (`0 < maxWorkers`), or the
+main thread can submit the next branch. -/
 theorem C07X_progress_enabled (h : ReachO n maxConc cfg s) (hn : 0 < n) (he : s.evt = false) :
     (∃ i, i ∈ s.active ∧ ∀ f, (step s (.finish i f)).isSome = true) ∨
-    (∃ i, s.queue.head? = some i ∧ (step s (.begin i)).isSome = true) := by
+    (∃ i, s.queue.head? = some i ∧ (step s (.begin i)).isSome = true) ∨
+    (s.submitted < n ∧ (step s (.submit s.submitted)).isSome = true) := by
   have hB := (Inv.of_reach h.reach).toBook
   cases ha : s.active with
   | cons x xs =>
@@ -483,42 +576,49 @@ theorem C07X_progress_enabled (h : ReachO n maxConc cfg s) (hn : 0 < n) (he : s.
     exact ⟨x, by rw [← ha]; exact hx, fun f => finish_enabled hx f⟩
   | nil =>
     right
-    rcases C07X_never_stuck h hn he with h1 | h1
+    rcases C07X_never_stuck h hn he with h1 | h1 | h1
     · exact absurd ha h1
-    · cases hq : s.queue with
+    · left
+      cases hq : s.queue with
       | nil => exact absurd hq h1
       | cons x xs =>
         refine ⟨x, rfl, begin_enabled hq ?_⟩
         rw [ha]; exact maxWorkers_pos hB hn
+    · right
+      exact ⟨h1, submit_enabled (by rw [hB.hn]; exact h1)⟩
 
-/-- Enabledness of the pool actions in general: an executing task can always end; the head of the
-queue can start whenever a worker is free; the woken main thread can cancel any queued task. -/
+/-- Enabledness in general: an executing task can always end; the head of the queue can start whenever
+a worker is free; the main thread can always submit the next branch; once it has submitted everything
+and the event is set it can cancel any queued task. -/
 theorem C07X_enabled (s : St) :
     (∀ i f, i ∈ s.active → (step s (.finish i f)).isSome = true) ∧
     (∀ i rest, s.queue = i :: rest → s.active.length < s.maxWorkers →
       (step s (.begin i)).isSome = true) ∧
     (∀ d, (step s (.tick d)).isSome = true) ∧
-    (∀ i, s.evt = true → s.out = none → i ∈ s.queue → (step s (.cancel i)).isSome = true) :=
+    (∀ i, s.evt = true → s.out = none → s.n ≤ s.submitted → i ∈ s.queue →
+      (step s (.cancel i)).isSome = true) ∧
+    (s.submitted < s.n → (step s (.submit s.submitted)).isSome = true) :=
   ⟨fun _ f hi => finish_enabled hi f, fun _ _ hq hw => begin_enabled hq hw, tick_enabled s,
-    fun _ he ho hi => cancel_enabled he ho hi⟩
+    fun _ he ho hsub hi => cancel_enabled he ho hsub hi, submit_enabled⟩
 
 /-! ## 8. fatal failures -/
 
-/-- **C06/C07, a fatal failure wakes the main thread, which raises it.** -/
+/-- **C06/C07, a fatal failure wakes the main thread, which raises it** (once it is done submitting). -/
 theorem C06X_fatal_wakes (h : Reach n maxConc cfg s) :
     (∀ i, finish s i .fatal = some s' → s'.fatal = true ∧ s'.evt = true) ∧
     (∀ i, timerFire s i false = some s' → s'.fatal = true ∧ s'.evt = true ∧ s'.status i = .pending) ∧
     (s.fatal = true → s.evt = true) ∧
     (∀ a, step s a = some s' → s.fatal = true → s'.fatal = true) ∧
     (s.fatal = true → wake s = some s' → s'.out = some .fatal) ∧
-    (s.fatal = true → s.out = none → ∃ s'', step s .wake = some s'' ∧ s''.out = some .fatal) ∧
+    (s.fatal = true → s.out = none → s.submitted = n →
+      ∃ s'', step s .wake = some s'' ∧ s''.out = some .fatal) ∧
     (s.out = some .fatal → s.fatal = true) := by
   have hI := Inv.of_reach h
   refine ⟨fun i hs => finish_fatal hs, fun i hs => timerFire_false_fatal hI.toBook hs,
     hI.fatal_evt, fun a hs => (mono_step hI.toBook hs).1, fun hf hs => wake_fatal hf hs, ?_,
     hI.out_fatal⟩
-  intro hf ho
-  have hen := wake_enabled (hI.fatal_evt hf) ho
+  intro hf ho hsub
+  have hen := wake_enabled (hI.fatal_evt hf) ho (by rw [hI.hn, hsub]; exact Nat.le_refl _)
   cases hw : step s .wake with
   | none => rw [hw] at hen; cases hen
   | some s'' => exact ⟨s'', rfl, wake_fatal hf hw⟩
@@ -566,16 +666,19 @@ theorem C09X_progress_measure (h : Reach n maxConc cfg s) {i : Nat} {f : Fin}
 success sets the event; the main thread returns at once, reporting branch 1 still RUNNING (not waited
 for) and the never-started branch 2 as cancelled. -/
 example :
-    (runActs (init 3 2 ⟨some 1, none, none⟩) [.begin 0, .begin 1, .begin 2]).isNone = true ∧
-    (runActs (init 3 2 ⟨some 1, none, none⟩) [.begin 0, .begin 1, .finish 0 .ok]).map
+    (runActs (init 3 2 ⟨some 1, none, none⟩)
+      [.submit 0, .submit 1, .submit 2, .begin 0, .begin 1, .begin 2]).isNone = true ∧
+    (runActs (init 3 2 ⟨some 1, none, none⟩)
+      [.submit 0, .submit 1, .submit 2, .begin 0, .begin 1, .finish 0 .ok]).map
       (fun s => (s.evt, s.active, s.queue, s.maxActive)) = some (true, [1], [2], 2) ∧
-    (runActs (init 3 2 ⟨some 1, none, none⟩) [.begin 0, .begin 1, .finish 0 .ok, .wake]).map
+    (runActs (init 3 2 ⟨some 1, none, none⟩)
+      [.submit 0, .submit 1, .submit 2, .begin 0, .begin 1, .finish 0 .ok, .wake]).map
       (fun s => (s.out, s.active)) =
         some (some (.result [.completed, .running, .suspended]), [1]) := by decide
 
 /-- (ii) fail-fast: no tolerance configured, one worker; the first failure decides the policy. -/
 example :
-    (runActs (init 3 1 ⟨none, none, none⟩) [.begin 0, .finish 0 .err, .wake]).map
+    (runActs (init 3 1 ⟨none, none, none⟩) [.submit 0, .submit 1, .submit 2, .begin 0, .finish 0 .err, .wake]).map
       (fun s => (s.out, s.succ, s.fail)) =
         some (some (.result [.failed, .suspended, .suspended]), 0, 1) := by decide
 
@@ -583,22 +686,22 @@ example :
 a run in which the timer thread resumes a branch before everything is idle, ending in a result. -/
 example :
     (runActs (init 2 0 ⟨none, none, none⟩)
-      [.begin 0, .begin 1, .finish 0 (.suspUntil 5), .finish 1 (.suspUntil 3), .wake]).map
+      [.submit 0, .submit 1, .begin 0, .begin 1, .finish 0 (.suspUntil 5), .finish 1 (.suspUntil 3), .wake]).map
       (fun s => (s.out, s.timers)) = some (some (.suspend (some 3)), [(5, 0), (3, 1)]) ∧
     (runActs (init 2 0 ⟨none, none, none⟩)
-      [.begin 0, .begin 1, .finish 0 (.suspUntil 5), .timerFire 0 true]).isNone = true ∧
+      [.submit 0, .submit 1, .begin 0, .begin 1, .finish 0 (.suspUntil 5), .timerFire 0 true]).isNone = true ∧
     (runActs (init 2 0 ⟨none, none, none⟩)
-      [.begin 0, .begin 1, .finish 0 (.suspUntil 5), .tick 5, .timerFire 0 true, .begin 0,
+      [.submit 0, .submit 1, .begin 0, .begin 1, .finish 0 (.suspUntil 5), .tick 5, .timerFire 0 true, .begin 0,
        .finish 0 .ok, .finish 1 .ok, .wake]).map (fun s => s.out)
       = some (some (.result [.completed, .completed])) := by decide
 
 /-- (iv) fatal: a failed checkpoint in a branch, or in the timer thread's resubmission, wakes the main
 thread, which raises it although another branch is still executing. -/
 example :
-    (runActs (init 2 0 ⟨none, none, none⟩) [.begin 0, .begin 1, .finish 0 .fatal, .wake]).map
+    (runActs (init 2 0 ⟨none, none, none⟩) [.submit 0, .submit 1, .begin 0, .begin 1, .finish 0 .fatal, .wake]).map
       (fun s => (s.out, s.active)) = some (some .fatal, [1]) ∧
     (runActs (init 2 0 ⟨none, none, none⟩)
-      [.begin 0, .begin 1, .finish 0 (.suspUntil 1), .tick 1, .timerFire 0 false, .wake]).map
+      [.submit 0, .submit 1, .begin 0, .begin 1, .finish 0 (.suspUntil 1), .tick 1, .timerFire 0 false, .wake]).map
       (fun s => (s.out, s.status 0)) = some (some .fatal, .pending) := by decide
 
 
@@ -610,14 +713,17 @@ reported RUNNING (not waited for), 2 and the cancelled 4 SUSPENDED, 3 FAILED —
 tasks were executing. `cancel` is not enabled before the event is set. -/
 example :
     (runActs (init 5 2 ⟨none, none, none⟩)
-      [.begin 0, .begin 1, .finish 1 (.suspUntil 0), .begin 2, .finish 2 .susp, .begin 3,
+      [.submit 0, .submit 1, .submit 2, .submit 3, .submit 4,
+       .begin 0, .begin 1, .finish 1 (.suspUntil 0), .begin 2, .finish 2 .susp, .begin 3,
        .timerFire 1 true, .cancel 4]).isNone = true ∧
     (runActs (init 5 2 ⟨none, none, none⟩)
-      [.begin 0, .begin 1, .finish 1 (.suspUntil 0), .begin 2, .finish 2 .susp, .begin 3,
+      [.submit 0, .submit 1, .submit 2, .submit 3, .submit 4,
+       .begin 0, .begin 1, .finish 1 (.suspUntil 0), .begin 2, .finish 2 .susp, .begin 3,
        .timerFire 1 true, .finish 3 .err, .cancel 4]).map
       (fun s => (s.evt, s.queue, s.status 4)) = some (true, [1], .suspended) ∧
     (runActs (init 5 2 ⟨none, none, none⟩)
-      [.begin 0, .begin 1, .finish 1 (.suspUntil 0), .begin 2, .finish 2 .susp, .begin 3,
+      [.submit 0, .submit 1, .submit 2, .submit 3, .submit 4,
+       .begin 0, .begin 1, .finish 1 (.suspUntil 0), .begin 2, .finish 2 .susp, .begin 3,
        .timerFire 1 true, .finish 3 .err, .cancel 4, .begin 1, .wake]).map
       (fun s => (s.out, s.active, s.maxActive)) =
         some (some (.result [.running, .running, .suspended, .failed, .suspended]), [0, 1], 2) := by
@@ -630,13 +736,44 @@ branch PENDING and queues nothing; the main thread raises the timed suspend with
 pre-fix witness runs (a worker beginning the resubmitted branch) are no longer runs of the model. -/
 example :
     (runActs (init 1 0 ⟨none, none, none⟩)
-      [.begin 0, .finish 0 (.suspUntil 0), .timerFire 0 true, .wake]).map
+      [.submit 0, .begin 0, .finish 0 (.suspUntil 0), .timerFire 0 true, .wake]).map
       (fun s => (s.out, s.status 0, s.queue, s.active, s.timers, s.fatal))
       = some (some (.suspend (some 0)), .pending, [], [], [], false) ∧
     (runActs (init 1 0 ⟨none, none, none⟩)
-      [.begin 0, .finish 0 (.suspUntil 0), .timerFire 0 true, .begin 0]).isNone = true ∧
+      [.submit 0, .begin 0, .finish 0 (.suspUntil 0), .timerFire 0 true, .begin 0]).isNone = true ∧
     (runActs (init 2 0 ⟨some 1, none, none⟩)
-      [.begin 0, .begin 1, .finish 0 (.suspUntil 0), .finish 1 .susp, .timerFire 0 true,
+      [.submit 0, .submit 1, .begin 0, .begin 1, .finish 0 (.suspUntil 0), .finish 1 .susp, .timerFire 0 true,
        .begin 0]).isNone = true := by decide
+
+set_option synthInstance.maxSize 1024 in
+/-- (vii) sequential submission (the run that motivated it): n = 4, three workers.  Branch 0 parks and
+is re-submitted by the timer thread *before* the main thread has submitted branches 2 and 3: the work
+queue is `[1, 0]` with 2 and 3 still PENDING, later `[0, 2, 3]` — so the re-submitted `begin 0` comes
+before `begin 2` (which is disabled until then).  `submit` is only enabled for the next index.  And
+the main thread does not wake before it has submitted everything, even though a failure has already
+decided the policy; once it has, the never-started branches are reported cancelled. -/
+example :
+    (runActs (init 4 3 ⟨none, none, none⟩)
+      [.submit 0, .submit 1, .begin 0, .finish 0 (.suspUntil 0), .timerFire 0 true]).map
+      (fun s => (s.queue, s.status 2, s.status 3, s.submitted))
+      = some ([1, 0], .pending, .pending, 2) ∧
+    (runActs (init 4 3 ⟨none, none, none⟩)
+      [.submit 0, .submit 1, .begin 0, .finish 0 (.suspUntil 0), .timerFire 0 true, .begin 1,
+       .submit 2, .submit 3]).map (fun s => (s.queue, s.active)) = some ([0, 2, 3], [1]) ∧
+    (runActs (init 4 3 ⟨none, none, none⟩)
+      [.submit 0, .submit 1, .begin 0, .finish 0 (.suspUntil 0), .timerFire 0 true, .begin 1,
+       .submit 2, .submit 3, .begin 2]).isNone = true ∧
+    (runActs (init 4 3 ⟨none, none, none⟩)
+      [.submit 0, .submit 1, .begin 0, .finish 0 (.suspUntil 0), .timerFire 0 true, .begin 1,
+       .submit 2, .submit 3, .begin 0, .begin 2]).map (fun s => (s.queue, s.active, s.maxActive))
+      = some ([3], [1, 0, 2], 3) ∧
+    (runActs (init 4 3 ⟨none, none, none⟩) [.submit 1]).isNone = true ∧
+    (runActs (init 4 3 ⟨none, none, none⟩)
+      [.submit 0, .submit 1, .begin 0, .finish 0 (.suspUntil 0), .timerFire 0 true, .begin 1,
+       .finish 1 .err, .wake]).isNone = true ∧
+    (runActs (init 4 3 ⟨none, none, none⟩)
+      [.submit 0, .submit 1, .begin 0, .finish 0 (.suspUntil 0), .timerFire 0 true, .begin 1,
+       .finish 1 .err, .submit 2, .submit 3, .wake]).map (fun s => s.out)
+      = some (some (.result [.suspended, .failed, .suspended, .suspended])) := by decide
 
 end C09X
